@@ -40,6 +40,7 @@ func c17define() c17prog {
 	wrap.Bool("wopt", false, opt.Alias("wo")) // an option of the wrapper itself
 	wrap.SetCommandFn(fn)
 	wrap.NewCommand("wsub", "below the wrapper").SetCommandFn(fn)
+	wrap.Bool("wlate", false) // declared when the sub command already exists
 	opt.NewCommand("cmdother", "another").SetCommandFn(fn)
 	opt.HelpCommand("help", opt.Alias("?"))
 	return c17prog{opt, ran}
@@ -51,7 +52,7 @@ var c17optsCmd = []string{"flag", "f", "str", "string", "choice", "cho", "level"
 var c17cmdsRoot = []string{"cmd", "wrap", "cmdother", "help"}
 var c17cmdsCmd = []string{"sub", "help", "alpha", "alps", "beta"}
 var c17cmdsSub = []string{"help"}
-var c17optsWrap = []string{"wopt", "wo"}
+var c17optsWrap = []string{"wopt", "wo", "wlate"}
 var c17cmdsWrap = []string{"wsub", "help"}
 var c17dynamic = []string{"README.adoc", "zebra"}
 
